@@ -1,8 +1,15 @@
-import G3D.Model.InterBody
+import G3D.Model.Inter
 import G3D.Model.Measure
+import G3D.Model.Move
+import G3D.Model.Distance
+import G3D.Model.Angle
+import G3D.Model.PlaneForms
+import G3D.Model.Tol
 open G3D
 
-/-! line protocol driver (prototype): tokens separated by blanks, rationals as n/d -/
+/-! Line-protocol driver of the executable model: one case per input line, one result line per case.
+    Tokens are separated by blanks, rationals are `n` or `n/d`.
+    Objects:  P x y z | L sv dv | PL p n | S a b | H p v | G k pts… | B f (k pts…)… | V x y z | N -/
 
 def parseRat (s : String) : Option Rat :=
   match s.splitOn "/" with
@@ -24,6 +31,7 @@ def tok : P String := do
   | t :: ts => set ts; pure t
 def rat : P Rat := do let t ← tok; match parseRat t with | some r => pure r | none => failure
 def nat : P Nat := do let t ← tok; match t.toNat? with | some r => pure r | none => failure
+def int : P Int := do let t ← tok; match t.toInt? with | some r => pure r | none => failure
 def v3 : P V3 := do pure ⟨← rat, ← rat, ← rat⟩
 def many {α} (n : Nat) (p : P α) : P (List α) := do
   let mut acc := []
@@ -35,17 +43,27 @@ def polygonP : P (Except CErr Polygon) := do
   let pts ← many n v3
   pure (Polygon.mk? pts)
 
-/-- object syntax:  P x y z | L sv dv | PL p n | S a b | H p v | G k pts… | B f (k pts…)… -/
-def objP : P (Except CErr Obj) := do
+/-- a parsed operand: a geometry object, a bare vector, or None; constructors may reject -/
+inductive Arg | obj (o : Obj) | vec (v : V3) | none
+
+def objP : P (Except CErr Arg) := do
   match (← tok) with
-  | "P" => do pure (.ok (.flat (.point (← v3))))
-  | "L" => do pure (.ok (.flat (.line ⟨← v3, ← v3⟩)))
-  | "PL" => do pure (.ok (.flat (.plane ⟨← v3, ← v3⟩)))
-  | "S" => do pure (.ok (.flat (.seg (Seg.mk' (← v3) (← v3)))))
-  | "H" => do pure (.ok (.flat (.halfline (HalfLine.mk' (← v3) (← v3)))))
+  | "P" => do pure (.ok (.obj (.flat (.point (← v3)))))
+  | "L" => do
+      let sv ← v3; let dv ← v3
+      pure ((Line.mk? sv dv).map (fun l => .obj (.flat (.line l))))
+  | "PL" => do
+      let p ← v3; let n ← v3
+      pure ((Plane.ofPN p n).map (fun l => .obj (.flat (.plane l))))
+  | "S" => do
+      let a ← v3; let b ← v3
+      pure ((Seg.mk? a b).map (fun s => .obj (.flat (.seg s))))
+  | "H" => do
+      let a ← v3; let v ← v3
+      pure ((HalfLine.ofVec? a v).map (fun s => .obj (.flat (.halfline s))))
   | "G" => do
       match (← polygonP) with
-      | .ok g => pure (.ok (.polygon g))
+      | .ok g => pure (.ok (.obj (.polygon g)))
       | .error e => pure (.error e)
   | "B" => do
       let f ← nat
@@ -54,8 +72,10 @@ def objP : P (Except CErr Obj) := do
       | .error e => pure (.error e)
       | .ok fs =>
         match Polyhedron.mk? fs with
-        | .ok b => pure (.ok (.polyhedron b))
+        | .ok b => pure (.ok (.obj (.polyhedron b)))
         | .error e => pure (.error e)
+  | "V" => do pure (.ok (.vec (← v3)))
+  | "N" => pure (.ok .none)
   | _ => failure
 
 def showGeo : Geo → String
@@ -68,21 +88,151 @@ def showGeo : Geo → String
 def showObj : Obj → String
   | .flat g => showGeo g
   | .polygon g => s!"G {g.pts.length} " ++ " ".intercalate (g.pts.map showV)
-  | .polyhedron b => s!"B {b.verts.length} " ++ " ".intercalate (b.verts.map showV) ++ s!" VOL {showRat b.volume}"
+  | .polyhedron b => s!"B {b.verts.length} " ++ " ".intercalate (b.verts.map showV) ++
+      s!" VOL {showRat b.volume} F {b.faces.length} E {b.edges.length}"
+
+def showCErr : CErr → String
+  | .value => "ValueError" | .zeroDiv => "ZeroDivisionError" | .index => "IndexError" | .notImpl => "NotImplementedError"
+
+def showBErr : BErr → String
+  | .bug => "bug" | .notImpl => "NotImplementedError" | .arity => "arity" | .ctor e => "ctor-" ++ showCErr e
+  | .value => "ValueError" | .typeMismatch => "typeMismatch"
 
 def showRes : ResB → String
   | .ok none => "none"
   | .ok (some o) => showObj o
-  | .error e => s!"err {repr e}"
+  | .error e => s!"err {showBErr e}"
+
+def showBool (b : Bool) : String := if b then "true" else "false"
+
+/-- `x in c` (the supported cases of C05); `none` = the library raises / is not defined here -/
+def memObj (x c : Obj) : Option Bool :=
+  match x, c with
+  | .flat (.point p), .flat (.line l) => some (l.contains p)
+  | .flat (.point p), .flat (.halfline h) => some (h.contains p)
+  | .flat (.point p), .flat (.seg s) => some (s.contains p)
+  | .flat (.point p), .flat (.plane pl) => some (pl.contains p)
+  | .flat (.point p), .polygon g => some (g.contains p)
+  | .flat (.point p), .polyhedron b => some (b.contains p)
+  | .flat (.seg s), .flat (.line l) => some (l.containsSeg s)
+  | .flat (.seg s), .flat (.halfline h) => some (h.containsSeg s)
+  | .flat (.seg s), .flat (.seg t) => some (t.containsSeg s)
+  | .flat (.seg s), .flat (.plane pl) => some (pl.containsSeg s)
+  | .flat (.seg s), .polygon g => some (g.containsSeg s)
+  | .flat (.seg s), .polyhedron b => some (b.containsSeg s)
+  | .flat (.halfline h), .flat (.line l) => some (l.containsHalfLine h)
+  | .flat (.halfline h), .flat (.halfline k) => some (k.containsHL h)
+  | .flat (.halfline h), .flat (.plane pl) => some (pl.containsHalfLine h)
+  | .flat (.line l), .flat (.plane pl) => some (pl.containsLine l)
+  | .polygon g, .flat (.plane pl) => some (g.inPlane pl)
+  | .polygon g, .polyhedron b => some (b.containsPolygon g)
+  | _, _ => none
+
+def aobj : Arg → Option AObj
+  | .obj (.flat (.line l)) => some (.line l)
+  | .obj (.flat (.plane p)) => some (.plane p)
+  | .vec v => some (.vec v)
+  | _ => none
+
+def distSq (a b : Obj) : Option (Except DErr Rat) :=
+  match a, b with
+  | .flat (.point p), .flat (.point q) => some (.ok (distSqPointPoint p q))
+  | .flat (.point p), .flat (.line l) => some (distSqPointLine p l)
+  | .flat (.line l), .flat (.point p) => some (distSqPointLine p l)
+  | .flat (.line a), .flat (.line b) => some (distSqLineLine a b)
+  | .flat (.point p), .flat (.plane pl) => some (distSqPointPlane p pl)
+  | .flat (.plane pl), .flat (.point p) => some (distSqPointPlane p pl)
+  | .flat (.line l), .flat (.plane pl) => some (distSqLinePlane l pl)
+  | .flat (.plane pl), .flat (.line l) => some (distSqLinePlane l pl)
+  | _, _ => none
+
+def showRats (l : List Rat) : String := " ".intercalate (l.map showRat)
+
+def measureObj : Obj → String
+  | .flat (.seg s) => s!"seg {showRat s.lenSq}"
+  | .polygon g => s!"polygon nn {showRat (V3.normSq g.plane.n)} areanum {showRat g.areaNum} edges {showRats g.edgeLenSqs}"
+  | .polyhedron b =>
+      s!"polyhedron vol {showRat b.volume} V {b.verts.length} E {b.edges.length} F {b.faces.length} edges {showRats b.edgeLenSqs} faces " ++
+        " ".intercalate (b.faceAreaNums.map (fun p => s!"{showRat p.1} {showRat p.2}"))
+  | _ => "err measure"
+
+def two : P (Except CErr Arg × Except CErr Arg) := do let a ← objP; let b ← objP; pure (a, b)
+
+def solveOp : P String := do
+  let m ← nat; let n ← nat
+  let rows ← many m (many (n + 1) rat)
+  let k ← nat
+  let free ← many k rat
+  let s := Solver2.solve rows
+  if !Solver2.solvable s then pure "unsolvable"
+  else
+    let va := Solver2.varargs n s
+    match Solver2.call n s free with
+    | .ok vals =>
+      if vals.all Option.isSome then pure (s!"solvable varargs {va} vals " ++ showRats (vals.map (·.getD 0)))
+      else pure s!"solvable varargs {va} err none-in-result"
+    | .error e => pure s!"solvable varargs {va} err {repr e}"
+
+/-- judge: does the tuple `x` satisfy every row of the augmented matrix? (`Solver2.Sat`, decided) -/
+def satOp : P String := do
+  let m ← nat; let n ← nat
+  let rows ← many m (many (n + 1) rat)
+  let x ← many n rat
+  pure (showBool (rows.all (fun row => Solver2.rowDot row (x ++ [-1]) == 0)))
 
 def handle (line : String) : String :=
   let toks := (line.trimAscii.toString.splitOn " ").filter (· ≠ "")
   match toks with
   | "inter" :: rest =>
-    match (do let a ← objP; let b ← objP; pure (a, b)).run rest with
-    | some ((.ok a, .ok b), _) => showRes (inter a b)
+    match two.run rest with
+    | some ((.ok (.obj a), .ok (.obj b)), _) => showRes (inter a b)
+    | some ((.ok .none, .ok _), _) => showRes (interOpt none none)
+    | some ((.ok _, .ok .none), _) => showRes (interOpt none none)
+    | some ((.ok _, .ok _), _) => "err NotImplementedError"
     | some _ => "ctor-error"
     | none => "bad-op"
+  | "mem" :: rest =>
+    match two.run rest with
+    | some ((.ok (.obj a), .ok (.obj b)), _) =>
+      match memObj a b with
+      | some r => showBool r
+      | none => "undefined"
+    | some _ => "ctor-error"
+    | none => "bad-op"
+  | "distsq" :: rest =>
+    match two.run rest with
+    | some ((.ok (.obj a), .ok (.obj b)), _) =>
+      match distSq a b with
+      | some (.ok r) => showRat r
+      | some (.error _) => "err internal"
+      | none => "err NotImplementedError"
+    | some _ => "ctor-error"
+    | none => "bad-op"
+  | "angle" :: rest =>
+    match two.run rest with
+    | some ((.ok a, .ok b), _) =>
+      match aobj a, aobj b with
+      | some x, some y =>
+        match angleRep x y, parallelG x y, orthogonalG x y with
+        | some (.acute c), some p, some o => s!"acute {showRat c} {showBool p} {showBool o}"
+        | some (.compl c), some p, some o => s!"compl {showRat c} {showBool p} {showBool o}"
+        | _, _, _ => "err NotImplementedError"
+      | _, _ => "err NotImplementedError"
+    | some _ => "ctor-error"
+    | none => "bad-op"
+  | "measure" :: rest =>
+    match objP.run rest with
+    | some (.ok (.obj a), _) => measureObj a
+    | some _ => "ctor-error"
+    | none => "bad-op"
+  | "show" :: rest =>
+    match objP.run rest with
+    | some (.ok (.obj a), _) => showObj a
+    | some (.error e, _) => "ctor-error " ++ showCErr e
+    | some _ => "bad-op"
+    | none => "bad-op"
+  | "solve" :: rest => match solveOp.run rest with | some (s, _) => s | none => "bad-op"
+  | "sat" :: rest => match satOp.run rest with | some (s, _) => s | none => "bad-op"
   | _ => "bad-op"
 
 partial def loop (h : IO.FS.Stream) : IO Unit := do
